@@ -19,7 +19,36 @@ RULE = ("every single-point edit of every base program (bases: the M0 pool, thin
 ASSUMPTIONS = ["CPython is the judge: the programs are closed, so one execution is the program's behaviour", "programs are checked with annotate off (the checker does not depend on it)"]
 
 
+def element_programs():
+    """programs the checker refuses today: every ELEMENT of a heterogeneous tuple / of collections, taken by index, by iteration and by
+    destructuring, used with an operation that only ANOTHER element's type supports.  Whatever the checker makes of them, an accepted
+    one must run without TypeError."""
+    vals = {"Int": "1", "Str": '"a"', "Float": "2.5", "Bool": "True"}
+    only = {"Int": "%s - 1", "Str": '%s + "x"', "Float": "%s - 0.5", "Bool": "not %s"}   # an operation on an element of that type
+    n = 0
+    import itertools
+    for types in list(itertools.permutations(["Int", "Str", "Float"], 2)) + list(itertools.permutations(["Int", "Str", "Bool"], 3)):
+        tt = "(%s)" % ", ".join(types)
+        tv = "(%s)" % ", ".join(vals[t] for t in types)
+        for i, ti in enumerate(types):
+            for tj in types:
+                use = only[tj]
+                for form, lines in (
+                        ("index-literal", ["def r := %s" % (use % ("%s[%d]" % (tv, i)))]),
+                        ("index-variable", ["def t: %s := %s" % (tt, tv), "def r := %s" % (use % ("t[%d]" % i))]),
+                        ("index-parameter", ["def g(t: %s) =>" % tt, "    def r := %s" % (use % ("t[%d]" % i)), "    print(r)", "g(%s)" % tv]),
+                        ("index-annotated", ["def t: %s := %s" % (tt, tv), "def e: %s := t[%d]" % (tj, i), "def r := %s" % (use % "e")]),
+                        ("destructure", ["def t: %s := %s" % (tt, tv), "def (%s) := t" % ", ".join("d%d" % k for k in range(len(types))), "def r := %s" % (use % ("d%d" % i))]),
+                        ("iterate", ["def t: %s := %s" % (tt, tv), "for e in t do", "    def r := %s" % (use % "e"), "    print(r)"]),
+                        ("index-field", ["class Hf", "    def t: %s := %s" % (tt, tv), "def h := Hf()", "def r := %s" % (use % ("h.t[%d]" % i))]),
+                        ("index-returned", ["def mk() -> %s => %s" % (tt, tv), "def r := %s" % (use % ("mk()[%d]" % i))])):
+                    n += 1
+                    yield {"id": "c04-el%d" % n, "family": "c04.E2.element", "src": "\n".join(lines) + "\n", "desc": "%s %s[%d] as %s" % (form, tt, i, tj), "base": "el",
+                           "tags": ["mut:element-use", "form:" + form, "tuple:" + tt, "index:%d" % i, "as:" + tj]}
+
+
 def cases(tier, seed):
+    yield from element_programs()
     yield from gen_c04.cases(tier)
 
 
